@@ -144,8 +144,24 @@ def main():
     ap.add_argument('-j', type=int, default=4)
     ap.add_argument('-s', type=int, default=1)
     ap.add_argument('ids', nargs='*')
-    a = ap.parse_args()
+    ap.add_argument('--one', help='file:line — apply one given mutant instead of sampling (with --new and ids = checks to run)')
+    ap.add_argument('--new', help='replacement text of that line (leading whitespace is kept from the original)')
     global SEED
+    a = ap.parse_args()
+    if a.one:
+        f, ln = a.one.rsplit(':', 1)
+        ln = int(ln) - 1
+        orig = open(os.path.join('/repo', f)).read().split('\n')[ln]
+        indent = orig[:len(orig) - len(orig.lstrip())]
+        q = queue.Queue()
+        for pid in a.ids:
+            q.put((pid, (f, ln, 'given', indent + a.new if a.new else '')))
+        out, lock = {}, threading.Lock()
+        SEED = 0
+        ts = [threading.Thread(target=worker, args=(i, q, out, lock)) for i in range(min(a.j, len(a.ids)))]
+        for t in ts: t.start()
+        for t in ts: t.join()
+        return
     SEED = a.s
     props = [json.loads(l) for l in open(os.path.join(ROOT, 'properties.jsonl'))]
     q = queue.Queue()
